@@ -1,7 +1,98 @@
-/- Driver glue for C11: case lines `c11.<sub> <args…> | <impl…>` (stub until the property is built) -/
+/-
+  Driver glue for C11. Case line:
+    c11.reqs <es> <conc> <n> (<gz> <ntrans> <rd>… [<hdrerr> <ended> <ndec> <rd>…])…
+        | (<nact> <act>…)… sids <const> <k> [<id>…]
+  <rd>  = d:<hex> (n, nil) | e:<hex> (n, io.EOF) | x:<hex> (n, other error)
+  <act> = i:<hex> (controller.In payload) | r:<code> (response status)
+  For a gzip request (<gz> = 1) the transport reads are followed by the oracle parameter: did
+  opening the gzip reader fail, did it read the transport stream to its end, and the results of the
+  gzip reader's Read calls. The model runs
+  on the reads `processBulk` sees: the transport reads (plain) or the gzip reader's (gzip).
+  `sids`: did every request use one source id for all its In calls; number of distinct ids over
+  the requests that read their body to the end (concurrent) /
+  all requests; sequential cases also list them.
+-/
 import FileD.Prelude.Tok
+import FileD.Model.HttpBulk
+import FileD.Model.HttpConc
+import FileD.Spec.C11
 namespace FileD.DrvC11
+open FileD Tok HttpBulk
 
-def handle (_cmd : String) (_args _impl : List String) : Option (String × String) := none
+def rd? (t : String) : Option Rd :=
+  match t.splitOn ":" with
+  | [k, h] => do
+    let b ← bytes? h
+    if k = "d" then some (.data b) else if k = "e" then some (.dataEof b)
+    else if k = "x" then some (.err b) else none
+  | _ => none
+
+def act? (t : String) : Option Act :=
+  match t.splitOn ":" with
+  | [k, h] =>
+    if k = "i" then (bytes? h).map .inp
+    else if k = "r" then (nat? h).map .resp else none
+  | _ => none
+
+def encAct : Act → String
+  | .inp b => "i:" ++ Hex.enc b
+  | .resp c => "r:" ++ toString c
+
+def parseReq (ts : List String) : Option ((Req × Bool) × List String) :=
+  match ts with
+  | gz :: rest => do
+    let g ← bool? gz
+    let (trans, r1) ← listOf rd? rest
+    if g then
+      match r1 with
+      | he :: en :: r2 => do
+        let h ← bool? he
+        let e ← bool? en
+        let (dec, r3) ← listOf rd? r2
+        pure ((⟨h, dec⟩, e), r3)
+      | _ => none
+    else pure ((⟨false, trans⟩, true), r1)
+  | [] => none
+
+def parseReqs : Nat → List String → Option (List (Req × Bool) × List String)
+  | 0, ts => some ([], ts)
+  | n+1, ts => do
+    let (q, r) ← parseReq ts
+    let (qs, r') ← parseReqs n r
+    pure (q :: qs, r')
+
+def parseActs : Nat → List String → Option (List (List Act) × List String)
+  | 0, ts => some ([], ts)
+  | n+1, ts => do
+    let (a, r) ← listOf act? ts
+    let (as, r') ← parseActs n r
+    pure (a :: as, r')
+
+def handle (cmd : String) (args impl : List String) : Option (String × String) :=
+  if cmd ≠ "c11.reqs" then none else
+  match args with
+  | _es :: cc :: nn :: rest => do
+    let conc ← bool? cc
+    let n ← nat? nn
+    let (qes, r) ← parseReqs n rest
+    if r ≠ [] then none
+    let qs := qes.map (·.1)
+    let ended := qes.map (·.2)
+    let acts := qs.map serve
+    let k := SpecC11.countLive ended acts
+    let ids := HttpConc.seqIds qs
+    let sids := if conc then ["sids", "1", toString k]
+                else ["sids", "1", toString ids.length] ++ ids.map toString
+    let m := unwords (acts.map (encList encAct) ++ sids)
+    let p := match parseActs n impl with
+      | some (ia, "sids" :: c :: kk :: _) =>
+        match bool? c, nat? kk with
+        | some sc, some sk => if SpecC11.holds conc qs ended ia sc sk then "ok" else "fail"
+        | _, _ => "bad-impl"
+      | _ => match impl with
+        | t :: _ => if t.startsWith "panic" then "fail" else "bad-impl"
+        | [] => "bad-impl"
+    pure (m, p)
+  | _ => none
 
 end FileD.DrvC11
